@@ -53,7 +53,7 @@ Definition open_ev (pc : spc) : list ev := match pc with SRunning e => [e] | _ =
 (** between the emptiness check and the dispatch the queues are not empty *)
 Definition needs_event (pc : spc) : bool :=
   match pc with
-  | SLoad | SWaitLock | SWaitLoop | SParked | SRelock | SWaitUnlock | SDispatch => true
+  | SLoad | SWaitLock | SWaitLoop | SParked | SRelock | SWaitUnlock | SDispatch | SRegister => true
   | _ => false
   end.
 
@@ -82,12 +82,13 @@ Lemma LInv_step prog : inductive (s_step prog) LInv.
 Proof.
   intros t s s' [HS Hpk Hne Hdn Hco] Hstep.
   pose proof (SInv_step prog t s s' HS Hstep) as HS'.
+  pose proof (si_reg s HS) as Hreg.
   constructor; [exact HS'| | | |]; clear HS HS';
   destruct s as [pc c script flag mu woken pq sq now held schd handled trace]; sfields;
   (destruct t as [| |i]; cbn [s_step] in Hstep; [| |discriminate]).
   - unfold s_step_engine in Hstep; sfields. destruct pc; try (destruct pq, sq); inv_some; sfields;
       try (destruct (next_event _ _) as [[[? ?] ?]|]); try (destruct (q_push_all _ _ _)); inv_some; sfields;
-      try discriminate; auto; fin.
+      try discriminate; auto; fin; try (intros _; right; left; apply Hreg; reflexivity).
   - unfold s_step_ctl in Hstep; sfields. destruct c; try (destruct script as [|[|] ?]); inv_some; sfields;
       try discriminate; intro E; subst; auto;
       destruct (Hpk eq_refl) as [?|[?|?]]; auto; try discriminate.
@@ -98,7 +99,7 @@ Proof.
   - unfold s_step_engine in Hstep; sfields. destruct pc; try (destruct pq, sq); inv_some; sfields; try discriminate; auto;
       try (destruct (next_event _ _) as [[[? ?] ?]|]); try (destruct (q_push_all _ _ _)); inv_some; sfields; fin.
   - unfold s_step_ctl in Hstep; sfields. destruct c; try (destruct script as [|[|] ?]); inv_some; sfields; auto.
-  - unfold s_step_engine in Hstep; sfields. destruct pc; [destruct pq, sq| | | | | | | | |]; inv_some; sfields; cbn [open_ev] in *; auto; fin.
+  - unfold s_step_engine in Hstep; sfields. destruct pc; [destruct pq, sq| | | | | | | | | |]; inv_some; sfields; cbn [open_ev] in *; auto; fin.
     + destruct (next_event pq sq) as [[[e pq'] sq']|] eqn:En; [|discriminate]. inv_some. sfields. cbn [open_ev app] in *.
       eapply perm_trans; [exact Hco|]. apply Permutation_app_head. apply (next_event_perm _ _ _ _ _ En).
     + destruct (q_push_all (prog (ev_id e)) pq sq) as [pq' sq'] eqn:Eq. inv_some. sfields. cbn [open_ev app] in *.
@@ -149,7 +150,7 @@ Section Progress.
   Definition rank (pc : spc) : nat :=
     match pc with
     | SDone => 0 | SDispatch => 1 | SWaitUnlock => 2 | SWaitLoop => 3 | SRelock => 4
-    | SWaitLock => 4 | SParked => 5 | SLoad => 6 | SCheck => 7
+    | SWaitLock => 4 | SParked => 5 | SLoad => 6 | SCheck => 7 | SRegister => 6
     | SRunning e => 8 * cost e
     end%nat.
 
@@ -172,7 +173,7 @@ Section Progress.
       destruct pc; try (destruct pq, sq); inv_some; sfields; auto;
         try (destruct (next_event _ _) as [[[? ?] ?]|]); try (destruct (q_push_all _ _ _)); inv_some; sfields; auto. }
     destruct HL as [HS Hpk Hne Hdn Hco].
-    destruct HS as [Hmu _ _ _ _ _ _].
+    destruct HS as [Hmu _ _ _ _ _ Hreg _].
     unfold done in Hnd. unfold mu.
     destruct s as [pc c script flag mu0 woken pq sq now held schd handled trace]. sfields. subst c script flag.
     cbn [ctl_holds] in Hmu. rewrite orb_false_r in Hmu.
@@ -198,6 +199,8 @@ Section Progress.
       apply q_push_all_perm in Eq. apply csum_perm in Eq. rewrite (csum_app (prog (ev_id e))) in Eq.
       pose proof (cost_ok e). lia.
     - congruence.
+    - (* SRegister: the flag is set there, but it is clear in a released state *)
+      specialize (Hreg eq_refl). discriminate.
   Qed.
 
   (** From any reachable state in which the controller is done and the flag is
